@@ -33,15 +33,15 @@ def run(prog, chk):
     ]
     chk.not_decided += ["that a reported glyph really changed / an unreported one really did not (data dependent)",
                         "effects inside third-party pens and boolean operations"]
-    r141(prog, chk)
-    r142(prog, chk)
-    r143(prog, chk)
+    chk.guard(r141, prog, chk)
+    chk.guard(r142, prog, chk)
+    chk.guard(r143, prog, chk)
     summaries = mutation_summaries(prog)
-    r144(prog, chk, summaries)
-    r144b(prog, chk)
-    r144c(prog, chk)
-    r145(prog, chk)
-    r146(prog, chk)
+    chk.guard(r144, prog, chk, summaries)
+    chk.guard(r144b, prog, chk)
+    chk.guard(r144c, prog, chk)
+    chk.guard(r145, prog, chk)
+    chk.guard(r146, prog, chk)
 
 
 # ----------------------------------------------------------------------------- R14.1
